@@ -845,6 +845,33 @@ theorem flag_muck {s s' : State} {i : Nat} (h : s.muckHoleCards i = .ok s') (Y :
   · cases h
   · cases h; cases Y <;> rfl
 
+/-- after the hand (no street) only a full show is accepted, never a muck -/
+theorem verifyShow_none_status {s : State} {arg : ShowArg} {i : Option Nat} {v : Verdict ShowPlan}
+    (hv : s.verifyShow cfg env arg i = .ok v) (hn : (s.street cfg).isNone = true) :
+    v.val.status = true := by
+  unfold State.verifyShow at hv
+  split at hv
+  · cases hv
+  · split at hv
+    · cases hv
+    · split at hv
+      · cases hv
+      · unfold State.showFinal at hv
+        simp only [] at hv
+        split at hv
+        · cases hv
+        · split at hv
+          · cases hv
+          · split at hv
+            · cases hv
+            · split at hv
+              · cases hv
+              · rename_i hfin
+                cases hv
+                simp only [hn, Bool.true_and, Bool.or_eq_true, Bool.not_eq_eq_eq_not, Bool.not_true,
+                  not_or, Bool.not_eq_false] at hfin
+                exact hfin.1
+
 theorem phase_opShow (m : M) (h : PhaseInv cfg m) (arg : ShowArg) (i : Option Nat) (rest : List Ctl)
     (hctl : m.ctl = .opShow arg i :: rest) : PhaseInv cfg (step cfg env m) := by
   unfold step; rw [hctl]; simp only []
@@ -891,15 +918,22 @@ theorem phase_opShow (m : M) (h : PhaseInv cfg m) (arg : ShowArg) (i : Option Na
       · exact ⟨X, hx.same (SameExcept.all (hflags_none hn))⟩
       · exact (ho.same hsame1).excl
     · rename_i s2 hs2
-      have hf2 : ∀ Y : Phase, Y.flag s2 = Y.flag s1 := by
-        intro Y
+      have hf2 : ∀ Y : Phase, (Y ≠ .show ∨ v.val.status = true) → Y.flag s2 = Y.flag s1 := by
+        intro Y hY
         split at hs2
         · cases hs2
           have := flag_consumeCards Y (s1.produceCards (s1.holeOf v.val.player)) env
             (v.val.holeCards.filter Card.known)
           rw [flag_produceCards] at this
           rw [← this]; cases Y <;> rfl
-        · exact flag_muck hs2 Y
+        · rename_i hstat
+          split at hs2
+          · cases hs2
+          · rename_i s3 hs3
+            cases hs2
+            rcases hY with hne | hst
+            · rw [← flag_muck hs3 Y]; cases Y <;> first | rfl | exact absurd rfl hne
+            · exact absurd hst hstat
       have hstreet2 : s2.street cfg = m.st.street cfg := by
         rw [← hstreet]
         split at hs2
@@ -920,18 +954,23 @@ theorem phase_opShow (m : M) (h : PhaseInv cfg m) (arg : ShowArg) (i : Option Na
           unfold State.street
           simp only [this]
           rfl
-        · unfold State.muckHoleCards at hs2
-          split at hs2
+        · split at hs2
           · cases hs2
-          · cases hs2; rfl
+          · rename_i s3 hs3
+            cases hs2
+            unfold State.muckHoleCards at hs3
+            split at hs3
+            · cases hs3
+            · cases hs3; rfl
       refine PhaseInv.warn (h.cont hctl _ _ ?_ (by simp) ?_) _
       · rcases hcase with hn | ho
-        · exact ⟨X, hx.same (SameExcept.all (fun Y => (hf2 Y).trans (hflags_none hn Y)))⟩
-        · exact ((ho.same hsame1).same (SameExcept.all hf2)).excl
+        · exact ⟨X, hx.same (SameExcept.all (fun Y =>
+            (hf2 Y (Or.inr (verifyShow_none_status hv hn))).trans (hflags_none hn Y)))⟩
+        · exact ((ho.same hsame1).same (fun Y hne => hf2 Y (Or.inl hne))).excl
       · intro g hg; simp at hg; subst hg
         rcases hcase with hn | ho
         · left; rw [hstreet2]; exact hn
-        · right; exact (ho.same hsame1).same (SameExcept.all hf2)
+        · right; exact (ho.same hsame1).same (fun Y hne => hf2 Y (Or.inl hne))
 
 /-! ### hand killing -/
 theorem phase_beginKill (m : M) (h : PhaseInv cfg m) (rest : List Ctl)
